@@ -5,6 +5,7 @@
   (`scanLoop_tokText`), the checker's loop (`countLoop_tokText`).
 -/
 import RtoscModel.Proofs.PrettyTok
+import RtoscModel.Proofs.PrettyCheckFuel
 namespace Rtosc.Pretty
 open Rtosc Rtosc.Libc
 open Rtosc.ArgVal (Cell)
@@ -212,6 +213,7 @@ theorem countLoop_tokText {cs : List Cell} {text : Bytes} (h : TokText cs text) 
       | succ g =>
         obtain ⟨hne, _, h0, _, _, _, h47, _⟩ := ht.start
         obtain ⟨r, hr, hsrc, hsk, _⟩ := ht.skip (t.length + 1) 0 recent false
+        have hr := skipNextPrintedArg_checkFuel hr
         unfold countLoop
         simp only [h0, h47, ne_eq, not_false_eq_true, and_self, ↓reduceIte, hr, bind, Except.bind, hsrc, hsk,
           skipSpace, hd_nil, not_true_eq_false, pure, Except.pure, List.length_nil]
@@ -228,6 +230,7 @@ theorem countLoop_tokText {cs : List Cell} {text : Bytes} (h : TokText cs text) 
       have hS := sep_of_next sep text hsep hstart
       obtain ⟨hne', _, h0, _, _, _, h47, _⟩ := ht.start
       obtain ⟨r, hr, hsrc, hsk, _⟩ := ht.skip (sep ++ text) ((t ++ (sep ++ text)).length + 1) 0 recent false hS
+      have hr := skipNextPrintedArg_checkFuel hr
       have hhd : hd (t ++ (sep ++ text)) = hd t := hd_append_of_ne_nil _ _ hne'
       have h0' : hd text ≠ 0 := hstart.2.2.1
       have h37 : hd text ≠ 37 := hstart.2.2.2.2.2.1
